@@ -13,8 +13,8 @@ import (
 	"golang.org/x/tools/go/ssa"
 )
 
-func constantBool(c *ssa.Const) bool      { return constant.BoolVal(c.Value) }
-func constantString(c *ssa.Const) string  { return constant.StringVal(c.Value) }
+func constantBool(c *ssa.Const) bool     { return constant.BoolVal(c.Value) }
+func constantString(c *ssa.Const) string { return constant.StringVal(c.Value) }
 func constantInt(c *ssa.Const) constant.Value {
 	v := constant.ToInt(c.Value)
 	if v.Kind() != constant.Int {
@@ -177,6 +177,7 @@ func (e *FEnc) instr(st *State, b *ssa.BasicBlock, idx int, in ssa.Instruction) 
 		if hasDefers(e.fn) {
 			e.havocHeap(st)
 			e.havocLeaked(st)
+			e.publishExposed(st)
 		}
 	case *ssa.Convert:
 		e.convert(st, x)
@@ -812,9 +813,12 @@ func (e *FEnc) sliceInstr(st *State, x *ssa.Slice) {
 				h := e.heapGet(st, hn, hs)
 				e.heapSet(st, hn, hs, fmt.Sprintf("(store %s %s %s)", h, base, e.term(cell)))
 				a.Published = true
-				e.leak(p.Alloc)
+				a.Aliased = true
 			}
-			e.define(x, &Val{Ty: x.Type(), Sort: "Slice", T: fmt.Sprintf("(mk_slice %s %s (- %s %s) (- %s %s))", base, lo, hi, lo, n, lo)})
+			// the slice value remembers the local array it was cut from, so that what the array's elements
+			// point to is found when the slice is handed to a callee
+			e.define(x, &Val{Ty: x.Type(), Sort: "Slice", T: fmt.Sprintf("(mk_slice %s %s (- %s %s) (- %s %s))", base, lo, hi, lo, n, lo),
+				Box: &Val{P: &Ptr{Root: rLocal, Alloc: p.Alloc, Elem: a.Ty}}})
 			return
 		}
 		r := e.newVal(x.Type(), "asl")
@@ -852,6 +856,7 @@ func (e *FEnc) ret(st *State, x *ssa.Return) {
 			continue
 		}
 		env := e.fnEnvAt(st, e.entry, x.Block(), len(x.Block().Instrs)-1)
+		env.lenient = true
 		e.bindResults(env, e.fn.Signature, rs)
 		if c.When != nil {
 			w, err := e.evalBool(env, c.When)
